@@ -44,7 +44,8 @@ theorem C19_no_trap_concrete (π : Params P S) (h : List (Call P S)) :
 /-- `emit_js` IS the printer applied to the import-resolved root document.  For every history and every live task
     `t` holding files `T.files`: every held file is the parse of its source, the root file is held, and the answer of
     `emit_js(t)` is decided by `resolveDoc` (C13's resolver run on exactly the task's files, root's definitions followed
-    by the imported ones):
+    by the imported ones; the root document is the one held under the root name AS SUPPLIED, the resolver knows it by
+    the NORMALISED name `norm T.root`, as `resolve_operation_imports` does):
     * import resolution fails with `e` → the error result numbered `eImp e`;
     * it yields `R` but some written spread names no fragment definition of `R` → the `FragmentNotDefined` error for
       the first such spread (never a trap);
@@ -58,12 +59,12 @@ theorem C19_emit_is_printer (π : Params P S) (h : List (Op P S)) (t : Nat) (T :
     ∃ rootFile, (projOf π T.files).lookup T.root = some rootFile ∧
       (∀ e ∈ T.files, π.parseSrc e.2.src = .ok (parsedOf π e.2) ∧
         e.2.imports = (parsedOf π e.2).imports.map (·.rel)) ∧
-      ((∃ e, resolveDoc π.code π.res (projOf π T.files) T.root rootFile = .err e ∧
+      ((∃ e, resolveDoc π.code π.res (projOf π T.files) (π.norm T.root) rootFile = .err e ∧
           (step (concreteEnv π) (runSt (concreteEnv π) init h) (.call (.emit t))).2 = .failed (.source (π.eImp e))) ∨
-       (∃ R n, resolveDoc π.code π.res (projOf π T.files) T.root rootFile = .ok R ∧ findUndefined R = some n ∧
+       (∃ R n, resolveDoc π.code π.res (projOf π T.files) (π.norm T.root) rootFile = .ok R ∧ findUndefined R = some n ∧
           (∃ d ∈ R, n ∈ ReadDoc.spreads (selOf d)) ∧ getFrag R n = none ∧
           (step (concreteEnv π) (runSt (concreteEnv π) init h) (.call (.emit t))).2 = .failed (.source (π.eUndef n))) ∨
-       (∃ R m, resolveDoc π.code π.res (projOf π T.files) T.root rootFile = .ok R ∧ findUndefined R = none ∧
+       (∃ R m, resolveDoc π.code π.res (projOf π T.files) (π.norm T.root) rootFile = .ok R ∧ findUndefined R = none ∧
           moduleOf π.cfg R = .ok m ∧
           (step (concreteEnv π) (runSt (concreteEnv π) init h) (.call (.emit t))).2 = .js m ∧
           m.stmts = Exports.loaderJs π.cfg (cliFile rootFile.defs.length R) ∧
@@ -96,12 +97,12 @@ theorem C19_emit_is_printer (π : Params P S) (h : List (Op P S)) (t : Nat) (T :
       unfold emitFiles
       rw [hlk]
       simp only
-      cases hres : resolveDoc π.code π.res (projOf π T.files) T.root (parsedOf π d) with
+      cases hres : resolveDoc π.code π.res (projOf π T.files) (π.norm T.root) (parsedOf π d) with
       | err e => exact Or.inl ⟨e, rfl, rfl⟩
       | outOfFuel =>
         exfalso
         unfold resolveDoc at hres
-        cases hq : Imports.resolve π.res (absFS π.code (projOf π T.files)) T.root (absFile π.code (parsedOf π d)) with
+        cases hq : Imports.resolve π.res (absFS π.code (projOf π T.files)) (π.norm T.root) (absFile π.code (parsedOf π d)) with
         | ok out => rw [hq] at hres; cases hres
         | err e => rw [hq] at hres; cases hres
         | outOfFuel => exact Imports.resolve_fuel _ _ _ _ hq
@@ -124,27 +125,29 @@ theorem C19_emit_is_printer (π : Params P S) (h : List (Op P S)) (t : Nat) (T :
     * the emitted module declares exactly the constants `constsFrom … F`: the constant of definition `i` is named after
       definition `i` (`C14_names`), and its value `docs[i]` is the JSON of `runtimeDefs R R[i]`;
     * for an operation `X = R[i]` of the ROOT file whose transitive spreads are all defined among the root's fragments
-      and the reference import set, and with pairwise distinct fragment names in `R`: `docs[i]` reads back, with the
+      and the reference import set, with pairwise distinct fragment names in `R`, and when no OTHER document is held
+      under the root's normalised name (`RootOKp … (norm root) rootFile`; `C19_rootOK_of_normalised`: automatic when
+      the root name is normalised): `docs[i]` reads back, with the
       independent graphql-js reader, as `[X] ++` the reference closure of X's spreads over the reference document, each
       fragment once (`C12_from_files`). -/
 theorem C19_emit_exports (π : Params P S) (root : P) (files : List (P × Doc P S)) (rootFile : SrcFile P)
-    (hlk : (projOf π files).lookup root = some rootFile)
-    {R : List ExecDef} (hR : resolveDoc π.code π.res (projOf π files) root rootFile = .ok R)
+    {R : List ExecDef} (hR : resolveDoc π.code π.res (projOf π files) (π.norm root) rootFile = .ok R)
     (hu : findUndefined R = none) {m : JsModule} (hm : moduleOf π.cfg R = .ok m) :
     (Exports.valueExports (Exports.dts π.cfg (cliFile rootFile.defs.length R))).Sublist (Exports.exports m.stmts) ∧
     Exports.defaultOf (Exports.dts π.cfg (cliFile rootFile.defs.length R)) = Exports.defaultOf m.stmts ∧
     Exports.consts m.stmts =
       Exports.constsFrom (Exports.BaseOptions.fromConfig π.cfg) 0 (cliFile rootFile.defs.length R) ∧
     (∀ (i : Nat) (o : OperationDef), rootFile.defs[i]? = some (.op o) →
+      RootOKp (projOf π files) (π.norm root) rootFile → ReadDoc.Resolved rootFile.defs →
       (C12.fragNamesOf R).Nodup → ProjectOk (projOf π files) →
-      (∀ n, ReadDoc.Reach (envOf (refDoc π.code π.res (projOf π files) root rootFile)) o.sel n →
-        (getFrag (refDoc π.code π.res (projOf π files) root rootFile) n).isSome) →
-      ∃ names, ReadDoc.closure (envOf (refDoc π.code π.res (projOf π files) root rootFile))
-          (refDoc π.code π.res (projOf π files) root rootFile).length o.sel = some names ∧
-        m.docs[i]? = some (DocJson.toJson (.op o :: fragDefs (refDoc π.code π.res (projOf π files) root rootFile) names)) ∧
-        ReadDoc.readDoc (DocJson.toJson (.op o :: fragDefs (refDoc π.code π.res (projOf π files) root rootFile) names)) =
-          some (ReadDoc.erasePos (.op o :: fragDefs (refDoc π.code π.res (projOf π files) root rootFile) names)) ∧
-        C12.fragNamesOf (fragDefs (refDoc π.code π.res (projOf π files) root rootFile) names) = names) := by
+      (∀ n, ReadDoc.Reach (envOf (refDoc π.code π.res (projOf π files) (π.norm root) rootFile)) o.sel n →
+        (getFrag (refDoc π.code π.res (projOf π files) (π.norm root) rootFile) n).isSome) →
+      ∃ names, ReadDoc.closure (envOf (refDoc π.code π.res (projOf π files) (π.norm root) rootFile))
+          (refDoc π.code π.res (projOf π files) (π.norm root) rootFile).length o.sel = some names ∧
+        m.docs[i]? = some (DocJson.toJson (.op o :: fragDefs (refDoc π.code π.res (projOf π files) (π.norm root) rootFile) names)) ∧
+        ReadDoc.readDoc (DocJson.toJson (.op o :: fragDefs (refDoc π.code π.res (projOf π files) (π.norm root) rootFile) names)) =
+          some (ReadDoc.erasePos (.op o :: fragDefs (refDoc π.code π.res (projOf π files) (π.norm root) rootFile) names)) ∧
+        C12.fragNamesOf (fragDefs (refDoc π.code π.res (projOf π files) (π.norm root) rootFile) names) = names) := by
   obtain ⟨m', hm', hs, _, hidx⟩ := moduleOf_ok π.cfg ((findUndefined_none_iff R).mp hu)
   rw [hm] at hm'
   injection hm' with hm'
@@ -155,13 +158,10 @@ theorem C19_emit_exports (π : Params P S) (root : P) (files : List (P × Doc P 
   · rw [hst]; exact Exports.C14_value_exports_loader _ _
   · rw [hst]; exact (Exports.C14_default_same _ _).2
   · rw [hst]; exact (Exports.C14_names _ _).2.2
-  · intro i o hi hnd hok hdef
-    have hroot : RootOKp (projOf π files) root rootFile := by
-      intro f hf; rw [hlk] at hf; injection hf with hf; exact hf.symm
-    have hrootOk : ReadDoc.Resolved rootFile.defs := hok root rootFile hlk
+  · intro i o hi hroot hrootOk hnd hok hdef
     have hX : ExecDef.op o ∈ rootFile.defs := List.mem_of_getElem? hi
     obtain ⟨names, h1, _, _, h4, h5, h6, _⟩ :=
-      C12_from_files π.code π.res (projOf π files) root rootFile hroot hok hrootOk hR hnd o hX hdef
+      C12_from_files π.code π.res (projOf π files) (π.norm root) rootFile hroot hok hrootOk hR hnd o hX hdef
     obtain ⟨out, _, hRe⟩ := resolveDoc_ok _ _ _ _ _ hR
     have hRi : R[i]? = some (.op o) := by
       rw [hRe, List.getElem?_append_left (List.getElem?_eq_some_iff.mp hi).1]; exact hi
@@ -174,12 +174,15 @@ theorem C19_emit_exports (π : Params P S) (root : P) (files : List (P × Doc P 
 /-- "A task whose required files are all loaded": when `get_required_files` answers the empty list (every resolved
     import target of every held file is itself held), import resolution inside `emit_js` cannot fail with `FileNotFound`;
     the only import error left is `FragmentNotFound` (an import line names a fragment its target file does not
-    define).  So such a task's `emit_js` answers the module, `FragmentNotFound`, or `FragmentNotDefined`. -/
+    define).  So such a task's `emit_js` answers the module, `FragmentNotFound`, or `FragmentNotDefined`.
+    `hnorm` (resolving against the normalised name of a file is resolving against its name) holds of
+    `resolve_relative_path`, which normalises its base. -/
 theorem C19_emit_all_loaded (π : Params P S) (h : List (Op P S)) (t : Nat) (T : Task P S)
     (hl : lookup (runSt (concreteEnv π) init h).tasks t = some T)
+    (hnorm : ∀ p r, π.res (π.norm p) r = π.res p r)
     (hreq : requiredOf (concreteEnv π) T.files = []) (rootFile : SrcFile P)
     (hlk : (projOf π T.files).lookup T.root = some rootFile) (e : ImpErr P P)
-    (he : resolveDoc π.code π.res (projOf π T.files) T.root rootFile = .err e) :
+    (he : resolveDoc π.code π.res (projOf π T.files) (π.norm T.root) rootFile = .err e) :
     ∃ q rel id, e = .fragmentNotFound q rel id := by
   obtain ⟨_, _, hparsed⟩ := run_inv (concreteEnv π) h init keysLt_init rootOk_init (parsedOk_init _)
   generalize runSt (concreteEnv π) init h = σ at hl hparsed
@@ -201,7 +204,7 @@ theorem C19_emit_all_loaded (π : Params P S) (h : List (Op P S)) (t : Nat) (T :
     | error c => rw [hs] at hp; cases hp
     | ok f => rw [hs] at hp; injection hp with hp; simp only [parsedOf, hs]; exact hp.symm
   unfold resolveDoc at he
-  cases hq : Imports.resolve π.res (absFS π.code (projOf π T.files)) T.root (absFile π.code rootFile) with
+  cases hq : Imports.resolve π.res (absFS π.code (projOf π T.files)) (π.norm T.root) (absFile π.code rootFile) with
   | ok out => rw [hq] at he; cases he
   | outOfFuel => rw [hq] at he; cases he
   | err e' =>
@@ -214,10 +217,11 @@ theorem C19_emit_all_loaded (π : Params P S) (h : List (Op P S)) (t : Nat) (T :
     | dangling hreach himp hnone =>
       rename_i q imp
       exfalso
-      -- the file `q` is held and `imp` is one of its lines
-      have hheld : ∃ d, lookup T.files q = some d ∧ imp ∈ (parsedOf π d).imports := by
+      -- some held file `q'` has the line `imp`, and its target is the one that was not found
+      have hheld : ∃ q' d, lookup T.files q' = some d ∧ imp ∈ (parsedOf π d).imports ∧
+          π.res q' imp.rel = π.res q imp.rel := by
         unfold Imports.Spec.importsOf at himp
-        by_cases hqr : q = T.root
+        by_cases hqr : q = π.norm T.root
         · rw [if_pos hqr] at himp
           rw [lookup_projOf] at hlk
           cases hd : lookup T.files T.root with
@@ -225,19 +229,19 @@ theorem C19_emit_all_loaded (π : Params P S) (h : List (Op P S)) (t : Nat) (T :
           | some d =>
             rw [hd] at hlk
             simp only [Option.map_some, Option.some.injEq] at hlk
-            exact ⟨d, by rw [hqr]; exact hd, by rw [hlk]; exact himp⟩
+            exact ⟨T.root, d, hd, by rw [hlk]; exact himp, by rw [hqr, hnorm]⟩
         · rw [if_neg hqr, lookup_absFS, lookup_projOf] at himp
           cases hd : lookup T.files q with
           | none => rw [hd] at himp; simp at himp
-          | some d => rw [hd] at himp; exact ⟨d, rfl, by simpa [absFile] using himp⟩
-      obtain ⟨d, hdq, hmem⟩ := hheld
+          | some d => rw [hd] at himp; exact ⟨q, d, hd, by simpa [absFile] using himp, rfl⟩
+      obtain ⟨q', d, hdq, hmem, hsame⟩ := hheld
       have htar : π.res q imp.rel ∈ targets (concreteEnv π) T.files := by
         unfold targets
         rw [List.mem_flatMap]
-        refine ⟨(q, d), lookup_mem hdq, ?_⟩
+        refine ⟨(q', d), lookup_mem hdq, ?_⟩
         rw [List.mem_map]
-        refine ⟨imp.rel, ?_, rfl⟩
-        rw [himps q d hdq, List.mem_map]
+        refine ⟨imp.rel, ?_, hsame⟩
+        rw [himps q' d hdq, List.mem_map]
         exact ⟨imp, hmem, rfl⟩
       apply hall _ htar
       rw [lookup_absFS, lookup_projOf] at hnone
@@ -245,6 +249,22 @@ theorem C19_emit_all_loaded (π : Params P S) (h : List (Op P S)) (t : Nat) (T :
       | none => rfl
       | some d' => rw [hx] at hnone; simp at hnone
 
+/-- When the root file name is normalised (what the JavaScript side passes: bundlers hand over absolute resolved
+    ids) the resolver's name of the root is the name the task holds it under, so the side condition "no other
+    document is held under the root's normalised name" of `C19_emit_exports` is automatic. -/
+theorem C19_rootOK_of_normalised (π : Params P S) (root : P) (files : List (P × Doc P S)) (rootFile : SrcFile P)
+    (hn : π.norm root = root) (hlk : (projOf π files).lookup root = some rootFile) :
+    RootOKp (projOf π files) (π.norm root) rootFile := by
+  intro f hf
+  rw [hn, hlk] at hf
+  injection hf with hf
+  exact hf.symm
+
+/-- The C20 model of `resolve_relative_path` / `normalize_path` meets the side condition `hnorm` of
+    `C19_emit_all_loaded` (and makes the model's "resolve the root's literals against the normalised root name" the
+    code's "resolve them against the name as supplied"): the base is normalised before anything else. -/
+theorem C19_norm_ok_paths (p r : Paths.P) : Paths.resolve (Paths.normalize p) r = Paths.resolve p r :=
+  Paths.resolve_normalize_base Paths.normalize_idem_all p r
 
 /-! ### non-vacuity: the 3-file diamond project of `Props/C12Composed.lean` through the loader
 
@@ -263,6 +283,7 @@ def yL : SrcFile Paths.P := ⟨[⟨Paths.components "../sub/../x.graphql", 0, .s
 def πEx : Params Paths.P Nat where
   parseSrc s := if s = 0 then .ok mainL else if s = 1 then .ok xL else if s = 2 then .ok yL else .error 7
   res := Paths.resolve
+  norm := Paths.normalize
   code := exCode
   cfg := Exports.Config.parse {}
   eImp _ := 1
@@ -296,6 +317,9 @@ theorem ex_proj_root : (projOf πEx exFiles).lookup pMain = some mainL := rfl
 theorem ex_resolve : Imports.resolve Paths.resolve (absFS exCode (projOf πEx exFiles)) pMain (absFile exCode mainL) = .ok [(pX, 0), (pX, 1), (pY, 0)] := by
   decide
 
+/-- the root name of the examples is normalised -/
+theorem ex_norm : Paths.normalize pMain = pMain := by decide
+
 theorem ex_resolveDoc : resolveDoc exCode Paths.resolve (projOf πEx exFiles) pMain mainL = .ok exR := by
   unfold resolveDoc
   rw [ex_resolve]
@@ -314,7 +338,9 @@ example : ∃ m, (step (concreteEnv πEx) (runSt (concreteEnv πEx) init hist) (
   have h3 : some rootFile = some mainL := hlk.symm.trans rfl
   injection h3 with h3
   subst h3
-  have hres : resolveDoc πEx.code πEx.res (projOf πEx exFiles) pMain mainL = .ok exR := ex_resolveDoc
+  have hres : resolveDoc πEx.code πEx.res (projOf πEx exFiles) (πEx.norm pMain) mainL = .ok exR := by
+    show resolveDoc _ _ _ (Paths.normalize pMain) _ = _
+    rw [ex_norm]; exact ex_resolveDoc
   rcases hc with ⟨e, he, _⟩ | ⟨R, n, hR, hu, _⟩ | ⟨R, m, hR, hu, hm, hresp, hst, hlen, _⟩
   · rw [hres] at he; cases he
   · rw [hres] at hR; injection hR with hR; subst hR
@@ -328,12 +354,17 @@ example : ∃ m, (step (concreteEnv πEx) (runSt (concreteEnv πEx) init hist) (
 
 /-- the hypotheses of `C19_emit_exports` (outer and inner) hold of the diamond project -/
 example : (projOf πEx exFiles).lookup pMain = some mainL ∧
-    resolveDoc πEx.code πEx.res (projOf πEx exFiles) pMain mainL = .ok exR ∧ findUndefined exR = none ∧
+    resolveDoc πEx.code πEx.res (projOf πEx exFiles) (πEx.norm pMain) mainL = .ok exR ∧ findUndefined exR = none ∧
+    RootOKp (projOf πEx exFiles) (πEx.norm pMain) mainL ∧
     (∃ m, moduleOf πEx.cfg exR = .ok m) ∧ (C12.fragNamesOf exR).Nodup ∧ ProjectOk (projOf πEx exFiles) ∧
-    SpreadsDefined (refDoc πEx.code πEx.res (projOf πEx exFiles) pMain mainL) := by
+    SpreadsDefined (refDoc πEx.code πEx.res (projOf πEx exFiles) (πEx.norm pMain) mainL) := by
   have hu : findUndefined exR = none := by decide
   obtain ⟨m, hm, _⟩ := moduleOf_ok πEx.cfg ((findUndefined_none_iff exR).mp hu)
-  refine ⟨rfl, ex_resolveDoc, hu, ⟨m, hm⟩, by decide, ?_, ?_⟩
+  have hN : πEx.norm pMain = pMain := ex_norm
+  rw [hN]
+  refine ⟨rfl, ex_resolveDoc, hu, ?_, ⟨m, hm⟩, by decide, ?_, ?_⟩
+  · have := C19_rootOK_of_normalised πEx pMain exFiles mainL hN rfl
+    rw [hN] at this; exact this
   · apply projectOk_of_forall
     intro e he
     have : projOf πEx exFiles = [(pX, xL), (pY, yL), (pMain, mainL)] := rfl
@@ -361,7 +392,8 @@ def πNope : Params Paths.P Nat := { πEx with parseSrc := fun s => if s = 4 the
     (`get_required_files` answers `[]`), and import resolution fails — with `FragmentNotFound`, as the theorem says -/
 example : requiredOf (concreteEnv πNope) [(pX, ⟨[], 1⟩), (pMain, ⟨[Paths.components "x.graphql"], 4⟩)] = [] ∧
     (projOf πNope [(pX, ⟨[], 1⟩), (pMain, ⟨[Paths.components "x.graphql"], 4⟩)]).lookup pMain = some nopeL ∧
-    resolveDoc πNope.code πNope.res (projOf πNope [(pX, ⟨[], 1⟩), (pMain, ⟨[Paths.components "x.graphql"], 4⟩)]) pMain nopeL =
+    resolveDoc πNope.code πNope.res (projOf πNope [(pX, ⟨[], 1⟩), (pMain, ⟨[Paths.components "x.graphql"], 4⟩)])
+        (πNope.norm pMain) nopeL =
       .err (.fragmentNotFound pMain (Paths.components "x.graphql") ⟨exCode "Nope", 0, 0⟩) ∧
     (lookup (runSt (concreteEnv πNope) init [.call (.initiate pMain 4), .call (.load 1 pX 1)]).tasks 1).map
       (fun T => (T.root, T.files)) = some (pMain, [(pX, ⟨[], 1⟩), (pMain, ⟨[Paths.components "x.graphql"], 4⟩)]) := by
@@ -370,7 +402,8 @@ example : requiredOf (concreteEnv πNope) [(pX, ⟨[], 1⟩), (pMain, ⟨[Paths.
       (absFS exCode (projOf πNope [(pX, ⟨[], 1⟩), (pMain, ⟨[Paths.components "x.graphql"], 4⟩)])) pMain
       (absFile exCode nopeL) = .err (.fragmentNotFound pMain (Paths.components "x.graphql") ⟨exCode "Nope", 0, 0⟩) := by
     decide
-  show resolveDoc exCode Paths.resolve _ pMain nopeL = _
+  show resolveDoc exCode Paths.resolve _ (Paths.normalize pMain) nopeL = _
+  rw [ex_norm]
   unfold resolveDoc
   rw [this]
 
@@ -396,10 +429,11 @@ example : (step (concreteEnv πBad) (runSt (concreteEnv πBad) init [.call (.ini
     have h3 : some rootFile = some badL := hlk.symm.trans rfl
     injection h3 with h3
     subst h3
-    have hres : resolveDoc πBad.code πBad.res (projOf πBad [(pMain, ⟨[], 3⟩)]) pMain badL = .ok badL.defs := by
+    have hres : resolveDoc πBad.code πBad.res (projOf πBad [(pMain, ⟨[], 3⟩)]) (πBad.norm pMain) badL = .ok badL.defs := by
       have : Imports.resolve Paths.resolve (absFS exCode (projOf πBad [(pMain, ⟨[], 3⟩)])) pMain (absFile exCode badL) =
           .ok [] := by decide
-      show resolveDoc exCode Paths.resolve _ pMain badL = _
+      show resolveDoc exCode Paths.resolve _ (Paths.normalize pMain) badL = _
+      rw [ex_norm]
       unfold resolveDoc
       rw [this]
       rfl
@@ -418,6 +452,47 @@ example : (step (concreteEnv πBad) (runSt (concreteEnv πBad) init [.call (.ini
       subst hR'
       rw [hu] at hn
       cases hn
+
+
+/-! the root is known to the import resolver by its NORMALISED name (found by the K stream `emit-concrete`, probe
+`unnormalised-root-name`): root supplied as `/p/sub/../main.graphql` (`#import F from "./f.graphql"  query Q { ...F }`),
+`/p/f.graphql` = `#import M from "./main.graphql"  fragment F { a ...M }`, and ANOTHER file held as `/p/main.graphql`
+(`fragment M { m }`) -/
+
+def pRootU : Paths.P := Paths.components "/p/sub/../main.graphql"
+def pF : Paths.P := Paths.components "/p/f.graphql"
+def fragM : FragmentDef := { name := "M", cond := "Query", sel := [fld "m"] }
+def fragF : FragmentDef := { name := "F", cond := "Query", sel := [fld "a", spr "M"] }
+def rootU : SrcFile Paths.P :=
+  ⟨[⟨Paths.components "./f.graphql", 0, .specific [⟨exCode "F", 0, 0⟩]⟩],
+   [.op { kind := .query, name := some ("Q", {}), sel := [spr "F"] }]⟩
+def fU : SrcFile Paths.P := ⟨[⟨Paths.components "./main.graphql", 0, .specific [⟨exCode "M", 0, 0⟩]⟩], [.frag fragF]⟩
+def mU : SrcFile Paths.P := ⟨[], [.frag fragM]⟩
+def projU : Project Paths.P Paths.P := [(pMain, mU), (pF, fU), (pRootU, rootU)]
+
+/-- Starting from the normalised root name (what the code does, and what `emitFiles` now does) the file held as
+    `/p/main.graphql` IS the root for the resolver: it is never finished, `M` is not appended, and the loader answers
+    `FragmentNotDefined M`.  Starting from the name as supplied (the mis-transcription) `M` would be appended and a
+    module printed. -/
+theorem C19_emit_unnormalised_root_witness :
+    Paths.normalize pRootU = pMain ∧
+    (match resolveDoc exCode Paths.resolve projU (Paths.normalize pRootU) rootU with
+      | .ok R => C12.fragNamesOf R = ["F"] ∧ findUndefined R = some "M"
+      | _ => False) ∧
+    (match resolveDoc exCode Paths.resolve projU pRootU rootU with
+      | .ok R => C12.fragNamesOf R = ["M", "F"] ∧ findUndefined R = none
+      | _ => False) := by
+  have h1 : Imports.resolve Paths.resolve (absFS exCode projU) (Paths.normalize pRootU) (absFile exCode rootU) =
+      .ok [(pF, 0)] := by decide
+  have h2 : Imports.resolve Paths.resolve (absFS exCode projU) pRootU (absFile exCode rootU) =
+      .ok [(pMain, 0), (pF, 0)] := by decide
+  refine ⟨by decide, ?_, ?_⟩
+  · unfold resolveDoc
+    rw [h1]
+    exact ⟨by decide, by decide⟩
+  · unfold resolveDoc
+    rw [h2]
+    exact ⟨by decide, by decide⟩
 
 end ExL
 
